@@ -18,7 +18,7 @@ from embit.psbt import PSBT
 from embit.psbtview import PSBTView
 
 PROP = "C05"
-MODS = ["EmbitModel.Props.C05"]
+MODS = ["EmbitModel.Props.C05", "EmbitModel.Props.C05X"]
 
 
 def txin_tokens(i):
